@@ -18,7 +18,8 @@
                                 poll of ch (one poll after every completed iteration); `ponder -`: no channel.
         → `<score> <move> <ponder> <Counters.Nodes> <Counters.ABNodes> <fuelOut> <anomaly> | <info>;<info>;… | <digest>`
           info = `<depth>:<1 = completed iteration, 0 = abort notice>:<score>:<nodes>:<hashfull>:<pv moves, comma separated>`
-          (`-` when there is no line), `<fuelOut>`/`<anomaly>` the ghost flags of the skeleton (0/1).
+          (`-` when there is no line), `<fuelOut>` (0/1) and `<anomaly>` (bit 0 = `St.anomaly`, bit 1 = `St.nmpOut`)
+          the ghost flags of the skeleton.
         → `err fen` / `err args` on malformed requests.
     gog <same arguments as go>  the same search, and ADDITIONALLY the same `Search.go` from the same engine state
                                 with the GUARDED record `SearchReal.realCompGuarded K` (= `realCompG K Eval.shipped`,
@@ -103,6 +104,10 @@ def infoStr (i : Search.Info) : String :=
 
 def bstr (x : Bool) : String := if x then "1" else "0"
 
+/-- the two ghost flags in one field: bit 0 = `anomaly`, bit 1 = `nmpOut` (the mate branch of null-move
+    pruning returned a `beta` below `-Inf + ply`). -/
+def flagStr (anomaly nmpOut : Bool) : String := toString ((if anomaly then 1 else 0) + (if nmpOut then 2 else 0))
+
 def fuel : Nat := 1000000000
 
 structure GoArgs where
@@ -134,7 +139,7 @@ def parseGo (ws : List String) : Option GoArgs :=
 /-- the head and the info lines of an answer. -/
 def resultStr (r : Search.Result SearchReal.PS) : String :=
   let infos := if r.out.isEmpty then "-" else String.intercalate ";" (r.out.reverse.map infoStr)
-  s!"{r.score} {r.move} {r.ponder} {r.st.nodes} {r.st.abNodes} {bstr r.st.fuelOut} {bstr r.st.anomaly} | {infos}"
+  s!"{r.score} {r.move} {r.ponder} {r.st.nodes} {r.st.abNodes} {bstr r.st.fuelOut} {flagStr r.st.anomaly r.st.nmpOut} | {infos}"
 
 def runGo (st : DS) (a : GoArgs) (guard : Bool) : DS × String :=
   let K := mkKeys st.keysArr
